@@ -103,3 +103,21 @@ Theorem generated_missing_pairs_code_refines_model :
   ltac:(let t := type of get_pairs_with_missing_value_eq in exact t).
 Proof. exact get_pairs_with_missing_value_eq. Qed.
 Print Assumptions generated_missing_pairs_code_refines_model.
+
+(* ---- tie: the remaining public wrappers as REGENERATED from the source on this run (Gen/WrapperGen.v,
+   Gen/FilterWrapperGen.v over Model/Frame.v): overlap_coefficient_join_py, edit_distance_join_py,
+   overlap_join_py and the filters' filter_tables compute header_spec + the rows of api_join (entry
+   EJoin / EFilter / EOverlapFilter) through the declared projection, per chunk up to order *)
+From SSJ Require Import Frame WrapperGen FilterWrapperGen WrapperBody WrapperApiLink WrapperEnd WrapperRefineOvc WrapperRefineEd FilterWrapperRefineOverlap FilterWrapperRefine FilterWrapperRefineClosed.
+Theorem generated_overlap_coefficient_wrapper_refines_model :
+  ltac:(let t := type of overlap_coefficient_join_rows_end_to_end_flat in exact t).
+Proof. exact overlap_coefficient_join_rows_end_to_end_flat. Qed.
+Print Assumptions generated_overlap_coefficient_wrapper_refines_model.
+Theorem generated_edit_distance_wrapper_refines_model :
+  ltac:(let t := type of edit_distance_join_rows_end_to_end_flat in exact t).
+Proof. exact edit_distance_join_rows_end_to_end_flat. Qed.
+Print Assumptions generated_edit_distance_wrapper_refines_model.
+Theorem generated_size_filter_tables_wrapper :
+  ltac:(let t := type of size_filter_tables_rows_end_to_end_flat in exact t).
+Proof. exact size_filter_tables_rows_end_to_end_flat. Qed.
+Print Assumptions generated_size_filter_tables_wrapper.
